@@ -159,4 +159,4 @@ def floors(st, tier):
     return ['class %r never observed' % c for c in REQUIRED if st['classes'].get(c, 0) == 0]
 
 
-extra_passes = thorough_aux('props.c01', ('miri',))
+extra_passes = thorough_aux('props.c01', ('miri',), exh=True)
